@@ -190,6 +190,13 @@ func (p *Program) buildFuncUnit(fn *ssa.Function) (ur *UnitResult) {
 			o.Ret = rp
 		}
 	}
+	if f.contract != nil {
+		for _, cs := range f.contract.Callsites {
+			if f.callsiteHits[cs] == 0 {
+				panic(specErr("callsite clause for " + cs.Callee + " matched no call in " + fn.Name() + " (callee renamed or clause does not type-check anywhere)"))
+			}
+		}
+	}
 	// ground instances of quantified hypotheses (sequential: touches shared tables)
 	ur.Instances = g.instantiate(2)
 	return ur
